@@ -396,7 +396,63 @@ func (st *c07state) analyse(fn *ssa.Function) {
 	if fn == nil {
 		return
 	}
-	o := st.opts()
+	// first with loops generalised at their first visit; where a site stays
+	// unproven, once more with the first iteration of every loop peeled (an
+	// invariant that holds only from the second iteration on, e.g. after a
+	// leading escape character was consumed).  Either proof is a proof.
+	saved := st.sites
+	st.sites = map[ssa.Instruction]*c07site{}
+	err := st.analyseWith(fn, st.opts())
+	first := st.sites
+	if err == nil && !allProven(first) {
+		st.sites = map[ssa.Instruction]*c07site{}
+		o := st.opts()
+		o.Unroll = 1
+		if os.Getenv("WSVERIF_DEBUG") == "2" {
+			fmt.Fprintf(os.Stderr, "=== peeled retry of %s\n", shortFn(fn))
+		}
+		err2 := st.analyseWith(fn, o)
+		if err2 == nil && allProven(st.sites) {
+			first = st.sites
+		} else if os.Getenv("WSVERIF_DEBUG") != "" {
+			fmt.Fprintf(os.Stderr, "peeled retry of %s: err=%v\n", shortFn(fn), err2)
+			for _, s2 := range st.sites {
+				if !s2.proven {
+					fmt.Fprintf(os.Stderr, "   still unproven: %s %s: %s (%d of %d)\n", st.c.P.Pos(s2.in.Pos()), s2.key, s2.failWhy, s2.unproven, s2.visited)
+				}
+			}
+		}
+	}
+	st.sites = saved
+	for in, s := range first {
+		if old := st.sites[in]; old != nil {
+			old.visited += s.visited
+			old.unproven += s.unproven
+			if old.proven && !s.proven {
+				old.proven, old.failWhy = false, s.failWhy
+			}
+			if old.key == "" {
+				old.key, old.kind = s.key, s.kind
+			}
+		} else {
+			st.sites[in] = s
+		}
+	}
+	if err != nil {
+		st.c.R.Fail(st.ruleName(), core.FuncName(fn), "path-enumeration", fn.Pos(), "path enumeration incomplete: "+err.Error())
+	}
+}
+
+func allProven(m map[ssa.Instruction]*c07site) bool {
+	for _, s := range m {
+		if !s.proven {
+			return false
+		}
+	}
+	return true
+}
+
+func (st *c07state) analyseWith(fn *ssa.Function, o core.Opts) error {
 	// DialContext is analysed in two regions (before / after the dial call) to keep the path count bounded
 	if shortFn(fn) == "(*Dialer).DialContext" {
 		sites := st.c.acquireSites(fn)
@@ -404,14 +460,18 @@ func (st *c07state) analyse(fn *ssa.Function) {
 			site := sites[0]
 			a := o
 			a.Stop = func(x *core.Explorer, ev *core.Event) bool { return ev.Instr == ssa.Instruction(site) }
-			st.c.explore(st.ruleName(), fn, a, func(p *core.Path) {})
+			_, err := st.c.exploreErr(fn, a, func(p *core.Path) {})
 			b := o
 			b.Start = site
-			st.c.explore(st.ruleName(), fn, b, func(p *core.Path) {})
-			return
+			_, err2 := st.c.exploreErr(fn, b, func(p *core.Path) {})
+			if err == nil {
+				err = err2
+			}
+			return err
 		}
 	}
-	st.c.explore(st.ruleName(), fn, o, func(p *core.Path) {})
+	_, err := st.c.exploreErr(fn, o, func(p *core.Path) {})
+	return err
 }
 
 func prove(x *core.Explorer, t *core.Term) bool  { return x.Prove(t) }
@@ -446,6 +506,12 @@ func (st *c07state) onInstr(x *core.Explorer, fn *ssa.Function, in ssa.Instructi
 		if s.proven {
 			s.proven = false
 			s.failWhy = why
+		}
+		if os.Getenv("WSVERIF_DEBUG") == "2" {
+			fmt.Fprintf(os.Stderr, "UNPROVEN %s %s\n", st.c.P.Pos(in.Pos()), why)
+			for _, l := range x.PrefixLits() {
+				fmt.Fprintf(os.Stderr, "      [%v] %v\n", l.Pos, l.T)
+			}
 		}
 	}
 	switch v := in.(type) {
